@@ -29,7 +29,8 @@ LEVEL = "exploration"
 RULE = (
     "cases = one BlockReduce.filter call each: seeded clouds of 1..90 points (uniform / jittered grid / clusters / anisotropic, "
     "scales 1e-2..1e6, offsets up to 1e3 extents, points on block edges and outside the region), 1..3 data components with distinct "
-    "non-constant fields, per-component distinct weights 10^[-3,3] or none, reductions mean/median/sum/min/max/average/value_range "
+    "non-constant fields, per-component distinct weights 10^[-3,3] or none, reductions mean/median/sum/min/max/average/value_range, "
+    "np.std / np.var (population, 0 for a single value) / np.ptp / np.prod and user functions NAMED std / var / mean (brute force with the very same callable) "
     "(unweighted) and np.average / harness weighted_median (weighted), blocks by scalar spacing, (north, east) spacing or shape, both "
     "adjust modes, region inferred / padded / shrunk / shifted, center_coordinates and drop_coords on/off with 0..2 extra coordinates, "
     "inputs as 1-D / 2-D C / Fortran / strided / read-only arrays and pandas Series with shuffled integer or string index (every "
@@ -58,19 +59,19 @@ ASSUMPTIONS = [
 FLOORS = {
     "quick": {
         "eval:filter_layout": 1100, "eval:labels_vs_reference_geometry": 1100, "eval:params_unchanged_by_filter": 1100,
-        "eval:block_value": 14900, "eval:block_coordinate": 21700, "eval:sum_conserved": 64, "eval:weights_refused": 3,
+        "eval:block_value": 14900, "eval:block_coordinate": 21700, "eval:sum_conserved": 34, "eval:weights_refused": 3,
         "distinct_nontrivial": 590, "class:weights:given": 460, "class:series_input_with_custom_index": 320,
-        "class:center_coordinates:True": 530, "class:drop_coords:False": 480, "class:empty_blocks:present": 800,
-        "class:data_dtype_present:int16": 110, "class:data_dtype_present:int32": 110, "class:data_dtype_present:int64": 110,
+        "class:center_coordinates:True": 530, "class:drop_coords:False": 470, "class:empty_blocks:present": 800,
+        "class:data_dtype_present:int16": 110, "class:data_dtype_present:int32": 100, "class:data_dtype_present:int64": 110,
         "class:data_dtype_present:float32": 190, "class:mixed_data_dtypes:integer_then_float64": 40,
-        "class:mixed_data_dtypes:float64_then_integer": 34, "class:mixed_data_dtypes:float32_then_float64": 34,
-        "class:mixed_data_dtypes:float64_then_float32": 37, "class:weights_dtype_present:int32": 76,
+        "class:mixed_data_dtypes:float64_then_integer": 34, "class:mixed_data_dtypes:float32_then_float64": 32,
+        "class:mixed_data_dtypes:float64_then_float32": 37, "class:weights_dtype_present:int32": 75,
         "class:weights_dtype_present:int64": 79, "class:history:reuse_calls": 130, "class:history:reuse_calls:region_none": 95,
         "class:history:reuse_calls:region_given": 11, "class:history:reuse_calls:center_coordinates": 56,
         "class:history:inplace_calls": 67, "class:history:inplace_calls:region_none": 41,
         "class:history:clone_after_filter_calls": 38, "class:reconfigured_calls": 48, "class:reconfigured:how:set_params": 12,
         "class:reconfigured:how:attribute_assignment": 12, "class:reconfigured:how:clone_then_set_params": 13,
-        "class:reconfigured:used_before": 22, "class:reconfigured:never_used_before": 21, "class:reconfigured:param:spacing": 10,
+        "class:reconfigured:used_before": 21, "class:reconfigured:never_used_before": 19, "class:reconfigured:param:spacing": 10,
         "class:reconfigured:param:shape_vs_spacing": 10, "class:reconfigured:param:region": 10,
         "class:reconfigured:param:adjust": 9, "class:reconfigured:param:center_coordinates": 10,
         "class:reconfigured:param:drop_coords": 10, "class:reconfigured:param:reduction": 11,
@@ -80,31 +81,35 @@ FLOORS = {
         "class:spelling_group:spacing:elements_integers": 18, "class:spelling_group:shape:as_list": 4,
         "class:spelling_group:shape:as_ndarray": 10, "class:spelling_group:shape:elements_numpy_scalars": 6,
         "class:spelling_group:region:as_tuple": 190, "class:spelling_group:region:as_ndarray": 16,
-        "class:spelling_group:region:elements_integers": 37, "class:spelling_group:flag_as_int=True": 32,
+        "class:spelling_group:region:elements_integers": 36, "class:spelling_group:flag_as_int=True": 32,
         "class:spelling_group:flag_as_int=False": 42, "class:spelling_group:flag_as_numpy_bool=True": 33,
         "class:spelling_group:flag_as_numpy_bool=False": 38, "class:falsy:extra_coordinate_exactly_0_everywhere": 46,
-        "class:falsy:weights_exactly_1": 13, "class:falsy:data_component_exactly_0_everywhere": 14,
+        "class:falsy:weights_exactly_1": 12, "class:falsy:data_component_exactly_0_everywhere": 14,
+        "class:reduction:callable:numpy.std": 35, "class:reduction:callable:numpy.var": 36,
+        "class:reduction:callable:numpy.ptp": 40, "class:reduction:callable:numpy.prod": 35,
+        "class:reduction:callable:user.std": 36, "class:reduction:callable:user.var": 34,
+        "class:reduction:callable:user.mean": 30, "single_member_blocks_judged_for_spread_statistics(expected 0, not NaN)": 1100,
     },
     "thorough": {
-        "eval:filter_layout": 16900, "eval:labels_vs_reference_geometry": 16900, "eval:params_unchanged_by_filter": 16900,
-        "eval:block_value": 232300, "eval:block_coordinate": 337800, "eval:sum_conserved": 1100, "eval:weights_refused": 16,
+        "eval:filter_layout": 16800, "eval:labels_vs_reference_geometry": 16800, "eval:params_unchanged_by_filter": 16900,
+        "eval:block_value": 231900, "eval:block_coordinate": 337200, "eval:sum_conserved": 620, "eval:weights_refused": 16,
         "distinct_nontrivial": 9200, "class:weights:given": 7400, "class:series_input_with_custom_index": 5200,
         "class:center_coordinates:True": 8300, "class:drop_coords:False": 7500, "class:empty_blocks:present": 12300,
-        "class:data_dtype_present:int16": 1900, "class:data_dtype_present:int32": 1800, "class:data_dtype_present:int64": 1800,
-        "class:data_dtype_present:float32": 3200, "class:mixed_data_dtypes:integer_then_float64": 670,
+        "class:data_dtype_present:int16": 1800, "class:data_dtype_present:int32": 1800, "class:data_dtype_present:int64": 1800,
+        "class:data_dtype_present:float32": 3100, "class:mixed_data_dtypes:integer_then_float64": 650,
         "class:mixed_data_dtypes:float64_then_integer": 660, "class:mixed_data_dtypes:float32_then_float64": 650,
-        "class:mixed_data_dtypes:float64_then_float32": 620, "class:weights_dtype_present:int32": 1200,
+        "class:mixed_data_dtypes:float64_then_float32": 600, "class:weights_dtype_present:int32": 1200,
         "class:weights_dtype_present:int64": 1300, "class:history:reuse_calls": 2000,
         "class:history:reuse_calls:region_none": 1500, "class:history:reuse_calls:region_given": 390,
         "class:history:reuse_calls:center_coordinates": 1000, "class:history:inplace_calls": 1000,
         "class:history:inplace_calls:region_none": 760, "class:history:clone_after_filter_calls": 570,
         "class:reconfigured_calls": 720, "class:reconfigured:how:set_params": 230,
         "class:reconfigured:how:attribute_assignment": 220, "class:reconfigured:how:clone_then_set_params": 230,
-        "class:reconfigured:used_before": 350, "class:reconfigured:never_used_before": 350,
+        "class:reconfigured:used_before": 340, "class:reconfigured:never_used_before": 350,
         "class:reconfigured:param:spacing": 200, "class:reconfigured:param:shape_vs_spacing": 200,
         "class:reconfigured:param:region": 200, "class:reconfigured:param:adjust": 180,
-        "class:reconfigured:param:center_coordinates": 190, "class:reconfigured:param:drop_coords": 190,
-        "class:reconfigured:param:reduction": 210, "class:spelling_group:spacing:scalar_as_python_int": 150,
+        "class:reconfigured:param:center_coordinates": 180, "class:reconfigured:param:drop_coords": 190,
+        "class:reconfigured:param:reduction": 200, "class:spelling_group:spacing:scalar_as_python_int": 150,
         "class:spelling_group:spacing:scalar_as_numpy_integer": 160,
         "class:spelling_group:spacing:scalar_as_numpy_floating": 170, "class:spelling_group:spacing:scalar_as_0d_array": 150,
         "class:spelling_group:spacing:as_list": 140, "class:spelling_group:spacing:as_ndarray": 200,
@@ -113,8 +118,13 @@ FLOORS = {
         "class:spelling_group:region:as_tuple": 2900, "class:spelling_group:region:as_ndarray": 350,
         "class:spelling_group:region:elements_integers": 570, "class:spelling_group:flag_as_int=True": 580,
         "class:spelling_group:flag_as_int=False": 680, "class:spelling_group:flag_as_numpy_bool=True": 570,
-        "class:spelling_group:flag_as_numpy_bool=False": 700, "class:falsy:extra_coordinate_exactly_0_everywhere": 760,
+        "class:spelling_group:flag_as_numpy_bool=False": 700, "class:falsy:extra_coordinate_exactly_0_everywhere": 750,
         "class:falsy:weights_exactly_1": 270, "class:falsy:data_component_exactly_0_everywhere": 280,
+        "class:reduction:callable:numpy.std": 670, "class:reduction:callable:numpy.var": 640,
+        "class:reduction:callable:numpy.ptp": 600, "class:reduction:callable:numpy.prod": 600,
+        "class:reduction:callable:user.std": 610, "class:reduction:callable:user.var": 640,
+        "class:reduction:callable:user.mean": 630,
+        "single_member_blocks_judged_for_spread_statistics(expected 0, not NaN)": 19500,
     },
 }
 JOBS = {"quick": 1, "thorough": 16}
@@ -134,7 +144,18 @@ def value_range(values):
     return float(v.max() - v.min())
 
 
-UNWEIGHTED = [np.mean, np.median, np.sum, np.min, np.max, np.average, blk.weighted_median, value_range]
+def _user(name, func):
+    """A user function that merely happens to be NAMED like a pandas groupby method (no dispatch by name is allowed)."""
+    func.__name__ = func.__qualname__ = name
+    return func
+
+
+# population standard deviation / variance (ddof=0, 0 for a single value) and a "mean" that is not the arithmetic mean
+user_std = _user("std", lambda values: float(np.sqrt(np.mean((np.asarray(values, dtype="float64") - np.mean(np.asarray(values, dtype="float64"))) ** 2))))
+user_var = _user("var", lambda values: float(np.mean((np.asarray(values, dtype="float64") - np.mean(np.asarray(values, dtype="float64"))) ** 2)))
+user_mean = _user("mean", lambda values: 0.5 * (float(np.min(np.asarray(values, dtype="float64"))) + float(np.max(np.asarray(values, dtype="float64")))))
+OTHER_STATISTICS = [np.std, np.var, np.ptp, np.prod, user_std, user_var, user_mean]
+UNWEIGHTED = [np.mean, np.median, np.sum, np.min, np.max, np.average, blk.weighted_median, value_range] + OTHER_STATISTICS
 WEIGHTED = [np.average, blk.weighted_median]
 
 
@@ -221,9 +242,12 @@ def install(tap, run):
                     "coordinate_0_reference": [call.geometry.centre(lab)[0] if est.center_coordinates else impl(call.coords[0][m], None) for lab, m in call.groups],
                 })
 
+        if any(t in name for t in (".std", ".var", ".ptp")):
+            run.count("single_member_blocks_judged_for_spread_statistics(expected 0, not NaN)", sum(1 for _, m in call.groups if m.size == 1) * call.ncomp)
+
         # 3. values
         stable = blk.weighted_median_is_stable if est.reduction is blk.weighted_median else None
-        failures, judged, skipped, worst = blk.check_block_values(call, observed, impl, True, stable)
+        failures, judged, skipped, worst = blk.check_block_values(call, observed, impl, True, stable, name)
         run.evaluated("block_value", judged)
         if skipped:
             run.count("either_way:weighted_median_at_half_weight", skipped)
@@ -239,7 +263,7 @@ def install(tap, run):
                 key="value:%s:%s" % (name, "weighted" if call.weights is not None else "plain"))
 
         # 4. coordinates
-        failures, judged, worst = blk.check_block_coordinates(call, out_coords, impl)
+        failures, judged, worst = blk.check_block_coordinates(call, out_coords, impl, name)
         run.evaluated("block_coordinate", judged)
         run.observe_max("block_coordinate_error_over_tolerance", worst)
         if failures:
@@ -289,6 +313,12 @@ def _weights(rng, size, ncomp):
     return [blk.integer_weights(rng, size) if rng.random() < 0.2 else 10 ** rng.uniform(-3, 3, size) for _ in range(ncomp)]
 
 
+def _dtypes_for(rng, reduction, ncomp):
+    """Data dtypes of a call; products only of float64 (they wrap in an integer dtype and overflow early in float32: properties of the reduction)."""
+    dtypes = blk.choose_dtypes(rng, ncomp)
+    return ["float64"] * ncomp if reduction is np.prod else dtypes
+
+
 def _one_call(run, rng, verde, layout=None, weighted=None, edges=False, npoints=None, kind=None, reduction=None, spelled=False):
     if spelled:  # integral spacings / region bounds, so that every argument can also be spelled with integers
         east, north, kwargs = blk.integer_friendly(rng)
@@ -307,7 +337,8 @@ def _one_call(run, rng, verde, layout=None, weighted=None, edges=False, npoints=
         weighted = rng.random() < 0.4
     if reduction is None:
         reduction = WEIGHTED[int(rng.integers(0, len(WEIGHTED)))] if weighted else UNWEIGHTED[int(rng.integers(0, len(UNWEIGHTED)))]
-    data = _fields(rng, east, north, ncomp, blk.choose_dtypes(rng, ncomp))
+    dtypes = _dtypes_for(rng, reduction, ncomp)
+    data = _fields(rng, east, north, ncomp, dtypes)
     if rng.random() < 0.03:
         data = [np.full(east.size, float(k + 1)) for k in range(ncomp)]  # a trivial (constant) case now and then
     weights = _weights(rng, east.size, ncomp) if weighted else None
@@ -369,7 +400,7 @@ def _history(run, rng, verde, inplace):
     extra = bool(rng.random() < 0.3)
     if extra:
         kwargs["drop_coords"] = False
-    dtypes = blk.choose_dtypes(rng, ncomp)
+    dtypes = _dtypes_for(rng, reduction, ncomp)
 
     def arguments(e, n):
         data = _fields(rng, e, n, ncomp, dtypes)
@@ -440,9 +471,9 @@ def _reconfigured(run, rng, verde):
     kwargs["drop_coords"] = bool(rng.random() < 0.5)
     ncomp = int(rng.choice([1, 2]))
     weighted = bool(rng.random() < 0.4)
-    pool = WEIGHTED if weighted else UNWEIGHTED
-    reduction = pool[int(rng.integers(0, len(pool)))]
     dtypes = blk.choose_dtypes(rng, ncomp)
+    pool = WEIGHTED if weighted else [r for r in UNWEIGHTED if r is not np.prod or all(d == "float64" for d in dtypes)]
+    reduction = pool[int(rng.integers(0, len(pool)))]
 
     def arguments():
         data = _fields(rng, east, north, ncomp, dtypes)
